@@ -369,6 +369,18 @@ pub(crate) fn case_process_eq<C: Ctx>() {
         b.pm(&mut buf[..len]);
         assert!(out[..len] == buf[..len], "process: returns what process_mut produced");
         assert!(a.off() == b.off() && words_eq(&a.words(), &b.words()), "process: exactly one process_mut call, on the whole output buffer");
+        // fixed non-degenerate variants (a counterexample under the recorder stub often has offset 0/64 or an empty input):
+        // entry in the middle of the cached block, with the same state and data
+        for (o, l) in [(17usize, 6usize), (63, 6), (1, 3), (64, 6)] {
+            let mut a2 = C::mk(w, cached, o);
+            let mut b2 = C::mk(w, cached, o);
+            let mut o2 = [0x5au8; 6];
+            a2.p(&data.buf[..l], &mut o2[..l]);
+            let mut buf2 = data.buf;
+            b2.pm(&mut buf2[..l]);
+            assert!(o2[..l] == buf2[..l], "process: returns what process_mut produced");
+            assert!(a2.off() == b2.off() && words_eq(&a2.words(), &b2.words()), "process: exactly one process_mut call, on the whole output buffer");
+        }
     }
 }
 
